@@ -444,6 +444,9 @@ func pathThrough(from, to ssa.Instruction, pred func(ssa.Instruction) bool) bool
 			if ins == to && hit {
 				return true
 			}
+			if ins == from {
+				return false // the value is computed afresh on this path: a later use sees the new one
+			}
 			if pred(ins) {
 				hit = true
 			}
